@@ -264,6 +264,11 @@ void RelayServer::handle_line(const std::shared_ptr<ClientSession>& session, con
 
 void RelayServer::handle_register(const std::shared_ptr<ClientSession>& session,
                                   const std::string& peer_hex) {
+    if (session->partner.lock()) {
+        // Already claimed by a connector: listing it again would let a second connector claim it too.
+        queue_text(session, "ERROR already-claimed\n");
+        return;
+    }
     if (!is_hex_string(peer_hex)) {
         queue_text(session, "ERROR invalid-peer\n");
         return;
